@@ -276,6 +276,7 @@ func RunWorker(o WorkerOpts) int {
 		Res: newResult(p.ID, o.Shard), samples: map[string]int{}}
 	w.prog = openProgress(o.Progress)
 	defer w.prog.close()
+	limitAddressSpace()
 	if p.Setup != nil {
 		p.Setup(w)
 	}
